@@ -928,6 +928,12 @@ int main(int argc, char **argv)
 		PHASE(0);
 	} else if (!strcmp(PROP, "C02")) {
 		for (int lat = 0; lat < (thorough ? 6 : 3); lat++) cells_full(3, lat);
+		/* the client is not the server's first: every userid 1..15 (other parties' version requests take the slots before it) */
+		for (int pre = 1; pre <= 15; pre++) for (int q = 0; q < 3; q += 2) for (int lazy = 1; lazy >= (thorough ? 0 : 1); lazy--) {
+			cell c; memset(&c, 0, sizeof c);
+			c.qt = q; c.ml = 255; c.lazy = lazy; c.wl = 3; c.pre = pre;
+			add_cell(c);
+		}
 		PHASE(0);
 		/* recovery after burst outages: pairwise subset (thorough: also at 30 ms latency) */
 		cells_pairwise(4, 0); if (thorough) cells_pairwise(4, 2);
